@@ -1,8 +1,104 @@
 import AFV.Driver.Proto
+import AFV.Driver.C11
+import AFV.Model.ParetoTable
+import AFV.Spec.ParetoTable
+import AFV.Spec.ParetoHyp
 namespace AFV.Driver.C12
-open Lean AFV.Proto
+open Lean AFV.Proto AFV.Pareto AFV.Driver.C11
 
-/-- Handler for property C12 requests (stub: not implemented yet). -/
-def handle (_req : Json) : Json := err "unimplemented"
+def kindStr : Kind → String
+  | .objective => "objective"
+  | .reservation => "reservation"
+  | .split => "split"
+  | .ignored => "ignored"
+
+structure InCol where
+  name : String
+  vals : List EV
+  objR : Option (List EV)
+  resR : Option (List EV)
+
+def inCol? (j : Json) : Option InCol := do
+  let name ← (field? j "name").bind getStr?
+  let vals ← (field? j "vals").bind row?
+  let objR := (field? j "obj_rounded").bind row?
+  let resR := (field? j "res_rounded").bind row?
+  pure ⟨name, vals, objR, resR⟩
+
+def tolCol? (j : Json) : Option TolCol := do
+  let g ← ((field? j "goal").bind getStr?).bind parseGoal
+  let vals ← (field? j "vals").bind row?
+  let num ← (field? j "num").bind getNat?
+  let den ← (field? j "den").bind getNat?
+  let abs ← (field? j "abs").bind getInt?
+  pure ⟨g, vals, num, den, abs⟩
+
+/-- rounding given as a table: the harness calls the real `logscale_to_tolerance` / `multi_round` on every
+column and sends the result along; unknown columns are left unchanged. -/
+def lookupRound (tbl : List (List EV × List EV)) (c : List EV) : List EV :=
+  match tbl.find? (fun p => p.1 == c) with
+  | some p => p.2
+  | none => c
+
+/-- ops:
+  {"op":"table","scale":S,"n":n,"split_by":[name…],"cols":[{"name":s,"vals":[v…],"obj_rounded":[v…]?,"res_rounded":[v…]?}…]}
+     → {"model":[b…]|"ValueError","spec":[b…]|null,"kinds":[k…]|null,"active_goals":[g…],"H":{cast,sweep,key}}
+     spec = zero-tolerance specification on the classified columns of the ORIGINAL values;
+     model = makeparetoMask with the rounding tables sent along (identity when absent)
+  {"op":"tolcheck","n":n,"cols":[{"goal":g,"vals":[v…],"num":a,"den":b,"abs":A}…],"mask":[b…]}
+     → {"violation": i|null} -/
+def handle (req : Json) : Json :=
+  match (field? req "op").bind getStr? with
+  | some "table" =>
+    match (field? req "scale").bind getNat?, (field? req "n").bind getNat?,
+          (field? req "split_by").bind strList?, (field? req "cols").bind getArr? with
+    | some S, some n, some splitBy, some arr =>
+      match arr.toList.mapM inCol? with
+      | none => err "malformed"
+      | some cols =>
+        if cols.any (fun c => c.vals.length != n) then err "malformed" else
+        let rp := field? req "repairs"
+        let cfg := stdCfg S (((rp.bind (field? · "wide")).bind getBool?).getD false)
+          (((rp.bind (field? · "sweep_first")).bind getBool?).getD false)
+        let tab : List TCol := cols.map fun c => ⟨c.name, c.vals⟩
+        let r : Rounding :=
+          ⟨lookupRound (cols.filterMap fun c => c.objR.map fun x => (c.vals, x)),
+           lookupRound (cols.filterMap fun c => c.resR.map fun x => (c.vals, x))⟩
+        match classified splitBy tab with
+        | none => Json.mkObj [("model", Json.str "ValueError"), ("spec", Json.null), ("kinds", Json.null),
+                              ("active_goals", Json.arr #[]), ("H", Json.null),
+                              ("model_agrees", Json.bool ((makeparetoMask cfg r splitBy n tab).isNone))]
+        | some cl =>
+          let act := activeCols r n cl
+          let gs := act.map (·.1)
+          let data := rowsOf (act.map (·.2)) n
+          let goalStr : Goal → String := fun g => match g with
+            | .min => "min" | .max => "max" | .diff => "diff"
+            | .minPPF => "min_per_prime_factor" | .maxPPF => "max_per_prime_factor"
+          Json.mkObj [("model", match makeparetoMask cfg r splitBy n tab with
+                                | some m => ofBoolList m
+                                | none => Json.str "ValueError"),
+                      ("spec", ofBoolList (tableSpec cfg.one (specCols Rounding.id cl) n)),
+                      ("spec_rounded", ofBoolList (tableSpec cfg.one (specCols r cl) n)),
+                      ("kinds", ofStrList (cl.map fun kc => kindStr kc.1)),
+                      ("active_goals", ofStrList (gs.map goalStr)),
+                      ("H", Json.mkObj [("cast", Json.bool (Hcast cfg gs data)),
+                                        ("sweep", Json.bool (Hsweep cfg gs data)),
+                                        ("key", Json.bool (Hkey cfg gs data))]),
+                      ("key_exact", Json.bool (keyExact cfg gs data))]
+    | _, _, _, _ => err "malformed"
+  | some "tolcheck" =>
+    match (field? req "n").bind getNat?, (field? req "cols").bind getArr?,
+          (field? req "mask").bind getArr? with
+    | some n, some arr, some m =>
+      match arr.toList.mapM tolCol?, m.toList.mapM getBool? with
+      | some cols, some mask =>
+        if mask.length != n || cols.any (fun c => c.vals.length != n) then err "malformed" else
+        match tolViolation cols n mask with
+        | some i => Json.mkObj [("violation", ofNat i)]
+        | none => Json.mkObj [("violation", Json.null)]
+      | _, _ => err "malformed"
+    | _, _, _ => err "malformed"
+  | _ => err "bad-op"
 
 end AFV.Driver.C12
